@@ -47,7 +47,7 @@ CALLS = ["ve_query", "ve_map", "bp_query", "causal", "sample", "score", "mle", "
 
 
 def gen_purity(rng, tier):
-    case = gen.rand_bn(rng, nmin=2, nmax=5, maxcard=3, name_kind=rng.choice(["str", "word"]), label_kind=rng.choice(["int", "str"]),
+    case = gen.rand_bn(rng, nmin=2, nmax=5, maxcard=3, name_kind=rng.choice(["str", "word"]), label_kind=rng.choice(["int", "str", "permint"]),
                        mincard=2)
     n = len(case["nodes"])
     case["calls"] = rng.sample(CALLS, rng.randint(3, 7))
@@ -219,7 +219,7 @@ def c03_connected(n, edges):
 
 # ----------------------------------------------------------------------------- engine histories
 def gen_history(rng, tier):
-    case = gen.rand_bn(rng, nmin=2, nmax=5, maxcard=3, name_kind="str", label_kind=rng.choice(["int", "str"]), mincard=2)
+    case = gen.rand_bn(rng, nmin=2, nmax=5, maxcard=3, name_kind="str", label_kind=rng.choice(["int", "str", "permint"]), mincard=2)
     n = len(case["nodes"])
     qs = []
     for _ in range(rng.randint(2, 8)):
